@@ -215,13 +215,13 @@ def okPair (s₁ s₂ : Side) (H : Hyps) (d : Nat) (R : Rel) (a b : Nat) : Bool 
       | .choice, .re =>
         !na.suppress && H.nonempty.contains nb.tok &&
         (match reToks s₁ H d na.kids with
-         | some ts => H.alts.contains (nb.tok, ts)
-         | none => false)
+         | some (t :: ts) => H.alts.contains (nb.tok, t :: ts)
+         | _ => false)
       | .re, .choice =>
         !na.suppress && H.nonempty.contains na.tok &&
         (match reToks s₂ H d nb.kids with
-         | some ts => H.alts.contains (na.tok, ts)
-         | none => false)
+         | some (t :: ts) => H.alts.contains (na.tok, t :: ts)
+         | _ => false)
       | .opt, .opt => allPairs (inR s₁ s₂ d R) na.kids nb.kids
       | .star, .star | .plus, .plus =>
         allPairs (inR s₁ s₂ d R) na.kids nb.kids &&
